@@ -907,6 +907,9 @@ func (x *SExec) doWrite(i int, op SOp) *Fail {
 				if cnt > before[j] && e.Applied {
 					applied[j] = true
 				}
+				if cnt > before[j] && e.Lied {
+					return sfail("replica|"+op.K+"|success-on-failed-disk", fmt.Sprintf("n%d (%s) answered the %s with success although its own disk call failed (chain of %d files): the controller counts it among the replicas that applied it", j, modeBefore[j], op.K, len(st.Nodes[j].S.Replica().VerifFiles())), "C02", "C05")
+				}
 				if cnt > before[j] && !e.Applied && e.Outcome == OK && e.Err != "" && !strings.Contains(e.Err, "Volume no longer exist") {
 					// no fault was injected: the replica itself failed I/O inside the volume's range
 					return sfail("replica|"+op.K+"|failed-without-fault", fmt.Sprintf("n%d (%s) failed %s off=%d len=%d by itself: %s", j, modeBefore[j], op.K, off, length, e.Err), "C01", "C16", "C07")
